@@ -129,14 +129,25 @@ def run(scn):
     anb, pnb = adw // 8, pdw // 8
     base = d.get("base", 0)
     paw = d.get("paw", 20)
-    port = LiteDRAMNativePort("both", paw, pdw)
     av = lavalon.AvalonMMInterface(data_width=adw, adr_width=30)
-    dut = LiteDRAMAvalonMM2Native(av, port, max_burst_length=d.get("max_burst", 16), base_address=base)
-    sim = Sim(dut, {"sys": 10000})
-    viol = Violations(sim)
     m = scn["mem"]
-    mem = NativeMemSlave(sim, port, cmd_ready=m.get("cmd_ready"), max_out=m.get("max_out", 8), wl1=m.get("wl1", 1),
-                         rl1=m.get("rl1", 3), extra=m.get("extra"), viol=None)
+    core = scn.get("core")
+    if core:
+        from ..corebench import core_host, CorePortView
+
+        def attach(top, ports):
+            top.submodules.frontend = LiteDRAMAvalonMM2Native(av, ports[0], max_burst_length=d.get("max_burst", 16), base_address=base)
+        tb, sim, viol, dram = core_host(core, Violations, attach)
+        port = tb.ports[0]
+        assert port.data_width == pdw and tb.amap.aw == paw
+        mem = CorePortView(sim, tb, dram, port)
+    else:
+        port = LiteDRAMNativePort("both", paw, pdw)
+        dut = LiteDRAMAvalonMM2Native(av, port, max_burst_length=d.get("max_burst", 16), base_address=base)
+        sim = Sim(dut, {"sys": 10000})
+        viol = Violations(sim)
+        mem = NativeMemSlave(sim, port, cmd_ready=m.get("cmd_ready"), max_out=m.get("max_out", 8), wl1=m.get("wl1", 1),
+                             rl1=m.get("rl1", 3), extra=m.get("extra"), viol=None)
     ref = RefMem()
     aoff = base // anb
     expect = []
@@ -185,13 +196,17 @@ def run(scn):
             stats["burst_reads" if op["n"] > 1 else "single_reads"] += 1
     mas = AvalonMaster(sim, av, ops, anb, on_wbeat, on_rcmd, on_rdata, scn.get("scramble", 0x155555))
     sim.add_agent("sys", mas)
-    sim.add_agent("sys", mem)
+    if not core:
+        sim.add_agent("sys", mem)
     ratio = max(1, adw // pdw)
     stall = sum(b for a, b in (m.get("cmd_ready") or [])) + 1
     nbeats = sum(len(o["beats"]) if o["kind"] == "w" else o["n"] for o in ops)
     gaps = sum(b.get("gap", 0) for o in ops if o["kind"] == "w" for b in o["beats"]) + sum(o.get("delay", 0) for o in ops)
     cap = 600 + gaps + nbeats * (ratio * (stall + 6) + max(m.get("extra") or [0]) + m.get("rl1", 3) + 14)
     need_quiet = 60 + max([b for a, b in (m.get("cmd_ready") or [])] or [0]) + max(m.get("extra") or [0]) + m.get("rl1", 3) + 8 * ratio
+    if core:
+        cap = 2 * cap + 3000 + 100 * ratio * nbeats
+        need_quiet += 250
     cyc = 0
     quiet = 0
     while cyc < cap:
@@ -220,6 +235,7 @@ def run(scn):
             if ba // pnb not in mem.mem and ref.m[ba] != init_byte(ba):
                 viol.add("final_image", "byte 0x%x written over avalon never reached memory" % ba)
                 break
+    stats["core_variant_runs"] = 1 if core else 0
     return {"violations": viol.v, "stats": stats, "cycles": cyc, "sim_ps": sim.now, "digest": sim.digest(),
             "nontrivial": mas.nacc >= 2, "states": ["av%d port%d" % (adw, pdw)],
             "summary": {"av_dw": adw, "port_dw": pdw, "ops": len(ops), "cycles": cyc}}
@@ -227,7 +243,16 @@ def run(scn):
 
 def gen(rng, tier, index):
     k = rng.choice([-3, -2, -1, -1, 0, 0, 0, 1, 1, 2, 3])
-    if k >= 0:
+    core = None
+    paw = 20
+    if rng.random() < 0.12:
+        from .. import coregen
+        core, info = coregen.gen_core(rng, nports=1, nranks=1)
+        pdw = info["data_bytes"] * 8
+        paw = coregen.amap_of(core, info).aw
+        k = rng.choice([kk for kk in (-3, -2, -1, 0, 1, 2) if 8 <= (pdw << kk if kk >= 0 else pdw >> -kk) <= 512])
+        adw = pdw << k if k >= 0 else pdw >> -k
+    elif k >= 0:
         pdw = rng.choice([w for w in (8, 16, 32, 64) if w << k <= 256])
         adw = pdw << k
     else:
@@ -236,9 +261,10 @@ def gen(rng, tier, index):
     anb = adw // 8
     base = rng.choice([0, 0, 0x1000, 0x40000000])
     mb = rng.choice([2, 4, 8, 16, 16])
-    d = {"av_dw": adw, "port_dw": pdw, "base": base, "paw": 20, "max_burst": mb}
+    d = {"av_dw": adw, "port_dw": pdw, "base": base, "paw": paw, "max_burst": mb}
     aoff = base // anb
-    top = (1 << 20) // max(1, adw // pdw) if adw >= pdw else (1 << 20) * (pdw // adw)
+    top = (1 << paw) // max(1, adw // pdw) if adw >= pdw else (1 << paw) * (pdw // adw)
+    top = min(top, 1 << 29)
     pool = [rng.getrandbits(10) for _ in range(4)] + [top - 20, top // 2, top // 2 - 3]
     hot = rng.sample(pool, rng.choice([1, 2, 3]))
     n = rng.choice([1, 2, 4, 8, 20]) if tier == "quick" else rng.choice([2, 5, 12, 30])
@@ -272,4 +298,7 @@ def gen(rng, tier, index):
             ops.append({"kind": "r", "addr": a, "n": rng.choice([1, 1, 2, mb, rng.randint(1, mb)]), "delay": dl})
     wl1 = rng.randint(1, 6)
     mem = {"cmd_ready": gen_pattern(rng), "max_out": rng.randint(3, 20), "wl1": wl1, "rl1": rng.randint(wl1 + 1, 14), "extra": gen_extra(rng)}
-    return {"dut": d, "mem": mem, "ops": ops, "scramble": rng.getrandbits(24)}
+    scn = {"dut": d, "mem": mem, "ops": ops, "scramble": rng.getrandbits(24)}
+    if core:
+        scn["core"] = core
+    return scn
